@@ -3407,6 +3407,13 @@ impl<'a, R: FileManager> FrontendCtx<'a, R> {
                         };
                         items = Some(ann.into());
                     } else {
+                        if items.is_some() {
+                            // [...A[], B] is not a prefix followed by a rest: the validator has no such shape
+                            return self.error(
+                                &anchor,
+                                DiagnosticInfoMessage::TupleRestElementMustBeLast,
+                            );
+                        }
                         let ty_schema = self.extract_type(&it.ty, file.clone())?;
                         prefix_items.push(ty_schema);
                     }
